@@ -60,6 +60,7 @@ def cells(tier):
         out.append({'kind': 'stls_server', 't': t if follow == 0 else 2,
                     'follow': follow})
     out.append({'kind': 'stls_client', 't': 4})
+    out.append({'kind': 'stls_client_helo'})
     out.append({'kind': 'stls_seq', 't': 2})
     for shape in range(len(SHAPES)):
         # 3 garbage bytes can never decode to a PLAIN response; 4 could, and
@@ -322,6 +323,38 @@ def run_stls_client(cell):
     api.prove('PIPELINING' in client.extensions and
               'STARTTLS' not in client.extensions,
               'extensions-not-from-tls-session', **info)
+
+
+def run_stls_client_helo(cell):
+    """inside TLS the server refuses EHLO (5xx) and the client falls back to
+    HELO, as SmtpRelayClient._ehlo does: a HELO session has no extensions,
+    whatever the clear-text EHLO reply listed"""
+    from slimta.smtp.client import Client
+    code = '5' + api.sstr('c12', 2, 0x30, 0x39)
+    ctx = FakeContext([code.encode('ascii') + b' not here\r\n',
+                       b'250 hi\r\n'])
+    sock = FakeSocket([b'220 ready\r\n',
+                       b'250-first\r\n250-PIPELINING\r\n250-8BITMIME\r\n'
+                       b'250 STARTTLS\r\n', b'220 go ahead\r\n'], eof=False)
+    client = Client(sock, ('192.0.2.1', 25))
+    info = {}
+    try:
+        client.get_banner()
+        client.ehlo('me')
+        client.starttls(ctx)
+        e = client.ehlo('me')
+        h = client.helo('me')
+    except api.Unsupported:
+        raise
+    except Exception as ex:
+        api.fail('client-raised', exc=type(ex).__name__, **info)
+        return
+    api.observe('helo', [e.code, h.code])
+    api.prove(h.code == '250', 'helo-reply-mispaired', **info)
+    left = [x for x in ('PIPELINING', '8BITMIME', 'STARTTLS')
+            if x in client.extensions]
+    api.prove(not left, 'clear-text-extensions-survive-tls-and-helo',
+              left=left, **info)
 
 
 SHAPES = ['plain-initial', 'plain-challenge', 'login', 'cram',
